@@ -107,6 +107,49 @@ def no_shared_default_writes(ctx, rule, files, allow=()):
     return n
 
 
+def partial_bound_writes(ctx, rule, files):
+    """``partial(f, x)`` fixes one object ``x`` for every later call of the bound callable; if ``f`` modifies that
+    parameter in place, each call starts from what the previous one left (a per-package list that grows with every
+    package looked at).  Checked for every ``partial`` in ``files`` whose target resolves to a function of the same module;
+    an object the binder goes on to read itself is an out-parameter (the calls are meant to fill it) and is left alone."""
+    import ast
+    from . import astutil as A
+    files = set(files)
+    n = 0
+    for fi in _funcs_of(ctx.program, files):
+        for c in ast.walk(fi.node):
+            if not (isinstance(c, ast.Call) and A.unparse(c.func).split(".")[-1] == "partial" and c.args):
+                continue
+            tgt = c.args[0]
+            callee = None
+            if isinstance(tgt, ast.Attribute) and isinstance(tgt.value, ast.Name) and fi.cls is not None and fi.params() and tgt.value.id == fi.params()[0]:
+                callee = ctx.program.lookup_attr(fi.cls, tgt.attr)[1]
+            elif isinstance(tgt, ast.Name):
+                callee = ctx.program.resolve_name(fi.module, tgt.id)
+            if not (hasattr(callee, "node") and isinstance(callee.node, (ast.FunctionDef, ast.AsyncFunctionDef)) and hasattr(callee, "params")):
+                continue
+            ps = callee.params()
+            if callee.cls is not None and isinstance(tgt, ast.Attribute) and ps:
+                ps = ps[1:]
+            bound = dict(zip(ps, c.args[1:]))
+            bound.update({k.arg: k.value for k in c.keywords if k.arg})
+            # an out-parameter: the binder itself reads the object after handing it out (it collects what the calls add)
+            bound = {k: v for k, v in bound.items() if not (isinstance(v, ast.Name) and any(
+                isinstance(x, ast.Name) and x.id == v.id and isinstance(x.ctx, ast.Load) and x.lineno > c.end_lineno for x in ast.walk(fi.node)))}
+            if not bound:
+                continue
+            n += 1
+            for s, tags in effects.shared_writes(ctx.program, callee):
+                for t in tags:
+                    if t.startswith("param:") and t[6:] in bound:
+                        ctx.fail(rule, callee, f"partial-bound-write:{t[6:]}",
+                                 f"{callee.qual} modifies its parameter `{t[6:]}` in place (`{s.target}`, {s.how}), and {fi.qual} binds that parameter once with "
+                                 f"`{A.unparse(c)[:70]}`: every call of the bound callable sees what the earlier calls added", node=s.node)
+    ctx.ob(rule, "partial-bound parameters", f"{n} partial() bindings of pkgcore functions in {len(files)} file(s): no bound parameter is modified in place by its function",
+           file=sorted(files)[0] if files else "")
+    return n
+
+
 def single_pass(ctx, rule, files):
     """no generator / map / filter object is consumed twice on one path (the second consumer would see nothing)"""
     from . import iterreuse
@@ -169,6 +212,16 @@ def anchor_files(prop):
     return _PROPS.get(prop, [])
 
 
+def _anchor_files_all(prop):
+    import json, os
+    here = os.path.dirname(os.path.dirname(os.path.dirname(os.path.abspath(__file__))))
+    for line in open(os.path.join(here, "properties.jsonl")):
+        p = json.loads(line)
+        if p["id"] == prop:
+            return list(p["anchors"]["files"])
+    return []
+
+
 def hygiene(ctx):
     """Rule G: structural hazards that break "the result depends on the stated inputs only" wherever they occur —
     shifted optional flags, closures outliving their loop iteration, single-pass iterables consumed twice, %-templates
@@ -177,6 +230,7 @@ def hygiene(ctx):
     shared mutable defaults, memoised mutable results, cloned sibling bodies, module-level alias writes, catch-all handlers
     around a loop, write-open without truncation).  Each is decided from the source; on the
     tree as it stands none occurs in any anchored file, so every finding is new."""
+    bash_scope(ctx, "G")
     files = [f for f in anchor_files(ctx.prop) if f in ctx.program.by_rel]
     if not files:
         return
@@ -189,6 +243,7 @@ def hygiene(ctx):
     memo_keys(ctx, "G", files)
     child_status(ctx, "G", files)
     classic_slips(ctx, "G", files)
+    partial_bound_writes(ctx, "G", files)
 
 
 def publication(ctx, rule, modname, qual, live, what):
@@ -283,7 +338,12 @@ def memo_keys(ctx, rule, files):
             ctx.fail(rule, fi, f"memo-key-projection:{arg}",
                      f"{fi.qual}: results are remembered in `{cont}` under `{key}`, but the remembered call receives `{arg}` itself; `{proj}` identifies less than `{arg}`, "
                      f"so a different `{arg}` with the same `{proj}` is served the first one's result", node=node)
-    ctx.ob(rule, "memo keys", f"{n} functions in {len(files)} file(s): no memo key is a projection of a memoised argument", file=sorted(files)[0] if files else "")
+        if ".<locals>." not in fi.qual:
+            for node, cont, key, par in memokey.param_omitted(effects.engine(ctx.program).fx(fi)):
+                ctx.fail(rule, fi, f"memo-key-omits:{par}",
+                         f"{fi.qual}: results are remembered in `{cont}` under `{key}`, but what is stored also depends on the parameter `{par}`, which is not part of the key: "
+                         f"a call with another `{par}` is served the result remembered for the first one", node=node)
+    ctx.ob(rule, "memo keys", f"{n} functions in {len(files)} file(s): no memo key is a projection of a memoised argument or leaves out a parameter the stored value depends on", file=sorted(files)[0] if files else "")
     return n
 
 
@@ -303,11 +363,25 @@ def child_status(ctx, rule, files):
     return n
 
 
+# findings of the exact lints that were read and are correct as they stand: (qualname, tag) -> why
+LINT_EXEMPT = {
+    ("mkdir", "quantity-truthiness:mode"): "creation mode only: a missing or zero mode is created 0777 and the requested mode (tested with `is not None`) is enforced right after by ensure_perms",
+    ("BugQuery.params", "optional-falsy-truth:offset"): "offset 0 is the server's default: leaving the parameter out is the same request",
+}
+
+
 def classic_slips(ctx, rule, files):
     """the exact lints of lints.py on functions, classes and module bodies of ``files``"""
-    from . import lints
+    from . import lints, capture
     files = set(files)
     n = 0
+
+    def report(owner, node, tag, msg):
+        if (getattr(owner, "qual", ""), tag) in LINT_EXEMPT:
+            ctx.ob(rule, "lint exemption", f"{owner.qual}: {tag} — {LINT_EXEMPT[(owner.qual, tag)]}", file=owner.relpath)
+            return
+        ctx.fail(rule, owner, tag, msg, node=node)
+
     for m in ctx.program.modules.values():
         if m.relpath not in files:
             continue
@@ -316,19 +390,55 @@ def classic_slips(ctx, rule, files):
         for scope, owner in [(m.tree, m)] + [(K.node, K) for K in m.classes.values()]:
             for node, tag, msg in lints.clone_siblings(scope):
                 ctx.fail(rule, owner, tag, f"{getattr(owner, 'qual', '')}: " + msg, node=node)
+        for K in m.classes.values():
+            for node, tag, msg in lints.copy_drops_field(ctx.program, K):
+                ctx.fail(rule, K, tag, msg, node=node)
+            for node, tag, msg in lints.optional_falsy_truthiness(ctx.program, K):
+                meth = next((f for f in K.methods.values() if f.node.lineno <= node.lineno <= (f.node.end_lineno or 0)), K)
+                report(meth, node, tag, msg)
+            for meth, node, attr, keeper in capture.detached_keepers(K):
+                ctx.fail(rule, meth, f"keeper-detached:{attr}", f"{meth.qual} rebinds `self.{attr}`, but `self.{keeper}` was built in __init__ around the object then bound to "
+                         f"`self.{attr}` and is not rebuilt here: it keeps using the old object and never sees the new value", node=node)
         for fi in m.funcs.values():
             n += 1
             nested = ".<locals>." in fi.qual
-            for f in (lints.dup_operands, lints.strip_charset, lints.cached_mutable, lints.broad_try_around_loop, lints.open_without_trunc, lints.unused_result):
+            for f in (lints.dup_operands, lints.strip_charset, lints.cached_mutable, lints.broad_try_around_loop, lints.open_without_trunc, lints.unused_result,
+                      lints.stored_iterator, lints.seq_equal_by_zip, lints.quantity_truthiness, lints.swallowed_fs_failure, lints.errno_tolerance_around_loop):
                 if nested:
                     continue  # the enclosing function's walk already covers nested bodies
                 for node, tag, msg in f(fi.node):
-                    ctx.fail(rule, fi, f"{tag}:{fi.name}", f"{fi.qual}: " + msg, node=node)
+                    if (fi.qual, tag) in LINT_EXEMPT:
+                        report(fi, node, tag, msg)
+                    else:
+                        ctx.fail(rule, fi, f"{tag}:{fi.name}", f"{fi.qual}: " + msg, node=node)
             for node, tag, msg in lints.mutable_default(fi.node):
                 ctx.fail(rule, fi, tag, f"{fi.qual}: " + msg, node=node)
+            for node, tag, msg in lints.discarded_generator_call(ctx.program, fi):
+                ctx.fail(rule, fi, tag, f"{fi.qual}: " + msg, node=node)
     ctx.ob(rule, "classic slips", f"{n} functions in {len(files)} file(s): no duplicated operand, prefix-by-strip(), shared mutable default, memoised mutable result, "
-           "cloned sibling body, module-level alias write, catch-all around a loop, or write-open without truncation", file=sorted(files)[0] if files else "")
+           "cloned sibling body, module-level alias write, catch-all or errno tolerance around a loop, write-open without truncation, single-pass iterator kept as state, "
+           "prefix equality by zip, truth test on a quantity / optional falsy field, swallowed ownership-mode-rename failure, generator call as a statement, "
+           "dataclass copy dropping a field, or keeper detached from rebound state", file=sorted(files)[0] if files else "")
     return n
+
+
+def bash_scope(ctx, rule):
+    """lower-case accumulators (`x+=...`) of the anchored bash files are declared or reset in their function"""
+    from . import bashscope
+    import json, os
+    files = [f for f in _anchor_files_all(ctx.prop) if f in ctx.program.bash]
+    if not files:
+        return 0
+    tot = 0
+    for rel in files:
+        bf = ctx.program.bash[rel]
+        res, seen = bashscope.uninitialised_accumulators(bf.src)
+        tot += seen
+        for fname, line, name in res:
+            ctx.fail(rule, fname, f"accumulator-not-local:{name}", f"{rel}: {fname} appends to `{name}` (line {line}) without declaring it local or resetting it first: the "
+                     f"accumulator starts from whatever a caller, the sourced ebuild / eclass, or the previous request of this daemon left in a variable of that name", file=rel)
+    ctx.ob(rule, "bash accumulators", f"{tot} `+=` accumulators in {len(files)} anchored bash file(s): every lower-case one is declared local or assigned first in its function", file=files[0])
+    return tot
 
 
 def always_reaches(ctx, rule, modname, qual, call_pred, what, tag):
